@@ -11,7 +11,7 @@ import (
 func init() {
 	register(&propDef{
 		ID:          "C20",
-		Explanation: "Decides, for the live-reload proxy's response rewriter (found structurally: the function that assigns the Body of its *http.Response parameter) and its helpers: R1 ContentLength and the Content-Length header are both computed from Len() of the very buffer installed as the new body, and the encoder's Close() dominates both reads (otherwise a gzip/brotli trailer is not counted); R2 every non-empty arm of the Content-Encoding switch binds a reader and a writer constructor from the same package, the empty encoding binds nothing (identity), and the arm for an unknown encoding leaves the function without touching the response; R3 the skip-marker test and the content-type test precede every mutation of the response and return, and the round tripper sets the marker only on the HX-Request == \"true\" path; R4 the nonce given to the script builder is parsed from the response's Content-Security-Policy header and reaches a nonce attribute; R5 exactly one AppendChild on the first body node, outside loops, and every failure path of the inserter returns the original body. NOT decided: that parse+render preserves the rest of the document; CSP header grammars.",
+		Explanation: "Decides, for the live-reload proxy's response rewriter (found structurally: the function that assigns the Body of its *http.Response parameter) and its helpers: R1 ContentLength and the Content-Length header are both computed from Len() of the very buffer installed as the new body, and the encoder's Close() dominates both reads (otherwise a gzip/brotli trailer is not counted); R2 every non-empty arm of the Content-Encoding switch binds a reader and a writer constructor from the same package, the empty encoding binds nothing (identity), and the arm for an unknown encoding leaves the function without touching the response; R3 the skip-marker test and the content-type test precede every mutation of the response and return, and the round tripper sets the marker only on the HX-Request == \"true\" path; R4 the nonce given to the script builder is parsed from the response's Content-Security-Policy header and reaches a nonce attribute; R5 exactly one AppendChild on the first body node, outside loops, and every failure path of the inserter returns the original body. R6 the buffer installed as the new body is a fresh local allocation of the rewriter and is never handed to a sync.Pool (the reverse proxy reads it after the rewriter returns). NOT decided: that parse+render preserves the rest of the document; CSP header grammars.",
 		Assumptions: []string{"gzip/brotli writers emit their trailer on Close", "x/net/html Render(Parse(doc)) denotes doc (not checked)"},
 		Trusted:     []string{"go/types", "x/tools go/packages, go/cfg"},
 		Run:         runC20,
@@ -159,11 +159,13 @@ func runC20(c *Ctx) {
 		ast.Inspect(fd.Body, func(n ast.Node) bool {
 			if as, ok := n.(*ast.AssignStmt); ok && len(as.Lhs) == 1 && len(as.Rhs) == 1 {
 				if call, ok := as.Rhs[0].(*ast.CallExpr); ok && len(call.Args) == 1 {
-					if ue, ok := call.Args[0].(*ast.UnaryExpr); ok && ue.Op == token.AND {
-						if id, ok := ue.X.(*ast.Ident); ok && info.ObjectOf(id) == bufObj {
-							if lid, ok := as.Lhs[0].(*ast.Ident); ok {
-								encObj = info.ObjectOf(lid)
-							}
+					arg := ast.Unparen(call.Args[0])
+					if ue, ok := arg.(*ast.UnaryExpr); ok && ue.Op == token.AND {
+						arg = ast.Unparen(ue.X)
+					}
+					if id, ok := arg.(*ast.Ident); ok && info.ObjectOf(id) == bufObj {
+						if lid, ok := as.Lhs[0].(*ast.Ident); ok && lid.Name != "_" && info.ObjectOf(lid) != bufObj {
+							encObj = info.ObjectOf(lid)
 						}
 					}
 				}
@@ -189,6 +191,47 @@ func runC20(c *Ctx) {
 			c.check(okClose, "C20.R1", key+"|close-before-len", c.pos(fd.Pos()), "the encoder's Close() dominates both Len() reads",
 				"the encoder is not closed before the buffer length is read: the gzip/brotli trailer is missing from Content-Length")
 		}
+	}
+
+	// R6: the buffer installed as the body belongs to this response alone -------------------
+	if bufObj != nil {
+		why := ""
+		if v, ok := bufObj.(*types.Var); !ok || v.IsField() || v.Parent() == p.Types.Scope() {
+			why = "it is not a local variable of the rewriter"
+		}
+		ast.Inspect(fd.Body, func(n ast.Node) bool {
+			switch n := n.(type) {
+			case *ast.AssignStmt:
+				for i, l := range n.Lhs {
+					if id, ok := l.(*ast.Ident); ok && info.ObjectOf(id) == bufObj && len(n.Rhs) == len(n.Lhs) {
+						if !freshBuffer(info, n.Rhs[i]) {
+							why = "it is obtained from `" + types.ExprString(n.Rhs[i]) + "`, which is not a fresh allocation"
+						}
+					}
+				}
+			case *ast.ValueSpec:
+				for i, id := range n.Names {
+					if info.Defs[id] == bufObj && i < len(n.Values) && !freshBuffer(info, n.Values[i]) {
+						why = "it is initialised from `" + types.ExprString(n.Values[i]) + "`, which is not a fresh allocation"
+					}
+				}
+			case *ast.CallExpr:
+				if fn := calleeOf(info, n); fn != nil && fullName(fn) == "sync.(Pool).Put" {
+					for _, a := range n.Args {
+						root := ast.Unparen(a)
+						if ue, ok := root.(*ast.UnaryExpr); ok && ue.Op == token.AND {
+							root = ast.Unparen(ue.X)
+						}
+						if id, ok := root.(*ast.Ident); ok && info.ObjectOf(id) == bufObj {
+							why = "it is returned to a sync.Pool at " + c.pos(n.Pos())
+						}
+					}
+				}
+			}
+			return true
+		})
+		c.check(why == "", "C20.R6", key+"|body-buffer-owned-by-response", c.pos(fd.Pos()), "the buffer installed as r.Body is a fresh local allocation and is never handed to a pool",
+			"the buffer installed as r.Body is shared between responses: "+why+". The reverse proxy streams r.Body to the browser after the rewriter has returned, so a concurrent page load overwrites the bytes while they are being sent (body and Content-Length disagree, wrong or corrupt page)")
 	}
 
 	// R2 ------------------------------------------------------------
@@ -601,4 +644,29 @@ func keysOf(m map[string][]string) []string {
 		out = append(out, k)
 	}
 	return out
+}
+
+// freshBuffer: new(T), &T{}, T{}, bytes.NewBuffer(...), bytes.NewBufferString(...), bytes.NewReader(...).
+func freshBuffer(info *types.Info, e ast.Expr) bool {
+	e = ast.Unparen(e)
+	switch e := e.(type) {
+	case *ast.CompositeLit:
+		return true
+	case *ast.UnaryExpr:
+		if e.Op == token.AND {
+			_, ok := ast.Unparen(e.X).(*ast.CompositeLit)
+			return ok
+		}
+	case *ast.CallExpr:
+		if id, ok := e.Fun.(*ast.Ident); ok && id.Name == "new" {
+			return true
+		}
+		if fn := calleeOf(info, e); fn != nil {
+			switch fullName(fn) {
+			case "bytes.NewBuffer", "bytes.NewBufferString", "bytes.NewReader", "strings.NewReader":
+				return true
+			}
+		}
+	}
+	return false
 }
